@@ -3,6 +3,8 @@ package checks
 import (
 	"time"
 
+	_ "github.com/glebziz/fs_db/verifh/dbconc"
+
 	"github.com/glebziz/fs_db/verifh/conc"
 	"github.com/glebziz/fs_db/verifh/hk"
 	"github.com/glebziz/fs_db/verifh/rw"
@@ -11,7 +13,7 @@ import (
 func init() { table["C12"] = c12 }
 
 func c12(tier string) int {
-	budget := hk.NewBudget(dur(tier, 60*time.Second, 8*time.Minute))
+	budget := hk.NewBudget(dur(tier, 150*time.Second, 15*time.Minute))
 	rp := hk.NewReporter("C12")
 	pool, err := conc.NewPool(0)
 	if err != nil {
@@ -37,6 +39,38 @@ func c12(tier string) int {
 		}
 	}
 	sum := conc.RunMany(rp, pool, items, budget, verbose())
+	// (b) the same through the assembled stack: inline.Open + Create with empty and uneven writes, a
+	// concurrent reader and a second creator, deviation-bounded
+	b := 2
+	if tier == "thorough" {
+		b = 3
+	}
+	var dbItems []conc.Item
+	for _, p := range []prog{
+		{"create-vs-get", "I:Sa|Ea|Ga"},
+		{"create-empty-writes-vs-get", "I:Sa|Fa|Ga.K"},
+		{"two-creates", "Ea|Fa"},
+		{"create-in-rc-tx-vs-ru-reader", "I:b01|c0|Eb|b10.g1b.r1"},
+	} {
+		pb := b
+		if p.name == "two-creates" || p.name == "create-in-rc-tx-vs-ru-reader" {
+			pb = b - 1 // four and five threads: one deviation less
+		}
+		dbItems = append(dbItems, conc.Item{Name: "db", Params: p.src, MaxBound: pb, MaxExecs: 3_000_000, Label: "C12/" + p.name})
+	}
+	sum2 := conc.RunItems(rp, pool, dbItems, budget, verbose())
+	sum.Execs += sum2.Execs
+	sum.Steps += sum2.Steps
+	sum.Nodes += sum2.Nodes
+	sum.Scenarios += sum2.Scenarios
+	sum.AllComplete = sum.AllComplete && sum2.AllComplete
+	for k, v := range sum2.Outcomes {
+		sum.Outcomes[k] += v
+	}
+	for k, v := range sum2.Completed {
+		sum.Completed[k] = v
+	}
+	sum.Samples = append(sum.Samples, sum2.Samples...)
 	ev := &hk.Evidence{PropertyID: "C12", Tier: tier, Level: "model_checking",
 		Coverage: sum.Coverage("all interleavings (unbounded) of writer and storing side for every split of a content of length <= N into <= M writes including empty ones, reader buffers 1/3/32K, plus 32K-boundary splits and storing-side failures; real internal/utils/async under the controlled scheduler"),
 		Assumptions: []string{"the storing side is the io.Copy loop of content.Store reading from the readWriter"}}
